@@ -2149,8 +2149,15 @@ func MergeHTTPHeaderModifiers(base, overrides *HTTPHeaderModifiers) (*HTTPHeader
 		return merged, nil
 	}
 
+	// The clone of base has nil maps for whatever base did not define.
+	if len(overrides.Add) > 0 && merged.Add == nil {
+		merged.Add = make(map[string]string, len(overrides.Add))
+	}
 	for k, v := range overrides.Add {
 		merged.Add[k] = v
+	}
+	if len(overrides.Set) > 0 && merged.Set == nil {
+		merged.Set = make(map[string]string, len(overrides.Set))
 	}
 	for k, v := range overrides.Set {
 		merged.Set[k] = v
